@@ -148,7 +148,7 @@ SPEC = dict(
                 "strace on every run and checked (in Coq, by a checker proved sound) to be one of the modelled sequences; the harness "
                 "materialises the product of prefixes of the real .ods and .q4 files (incl. the real 64 KiB flush boundaries) on disk and "
                 "compares the real NewStore / HasByHeight / GetByHeight (everything read back) / PutODSQ4 / PutODS / RemoveODSQ4 with the "
-                "model's prediction and with the reference square. The model is the repaired code (branch fix-c08-2: openQ4 refuses a Q4 "
+                "model's prediction and with the reference square. The model is the repaired code (fix commit 209657c: openQ4 refuses a Q4 "
                 "file that does not hold the whole quadrant); on the unrepaired code the property is refuted (theorem + concrete replay). "
                 "Partial: process-crash semantics only."),
     rule=("crash states: blocks of width 2, 4, 4 (padded), 16 (quick) / 1..32 (thorough) x {.ods absent, 0, 1, 40, 64, 65 (header complete), "
@@ -164,7 +164,7 @@ SPEC = dict(
         "a file is modelled by its length: every writer of a block file writes the canonical bytes of that block, so a prefix is determined by its length (that a complete file reads back as the block is C05)",
         "hard links are modelled by sharing (LShared / LOwn); only the height link can alias the ODS file; other heights of the same data hash and I/O errors (ENOSPC, EIO) are out of scope",
         "the recent-blocks cache is not part of the crash model (it does not survive a restart); lookups are made on a freshly started store",
-        "the model follows the repaired code (fix-c08-2, store/file/q4.go openQ4 size check); lookups by hash (no height link involved) are not covered",
+        "the model follows the repaired code (fix commit 209657c, store/file/q4.go openQ4 size check); lookups by hash (no height link involved) are not covered",
         "the strace normaliser (lib/props/c07.py, ~80 lines) maps openat(O_CREAT)/write/close/linkat/symlinkat/unlinkat on the three block paths to effects; syscalls on other paths are ignored",
     ],
 )
